@@ -100,6 +100,11 @@ fn boundary_actions() -> Vec<Action> {
         Action::line("A:TC19 0kt 0fpm", &frames::df17(5, a, frames::me_velocity(&Vel { st: 1, vew: 1, vns: 1, vr: 1, ..Default::default() }))),
         Action::line("A:TC19 north 1kt", &frames::df17(5, a, frames::me_velocity(&Vel { st: 1, vew: 1, vns: 2, vrsign: 1, vr: 2, ..Default::default() }))),
         Action::line("A:TC1 cat0 callsign A", &frames::df17(0, a, frames::me_ident(1, 0, frames::callsign_codes("A")))),
+        // an aircraft on the Greenwich meridian: the CPR longitude bits of its even frame are all zero
+        Action::line("A:TC11 even on the prime meridian", &rowmodel::pos_frame(17, a, 11, 36000, (rowmodel::P1.0, 0.0), false)),
+        // position squitters with GNSS height (type code 20): whatever they do to the position, both paths do the same
+        Action::line("A:TC20 even p1", &rowmodel::pos_frame(17, a, 20, 36000, rowmodel::P1, false)),
+        Action::line("A:TC20 odd p1", &rowmodel::pos_frame(17, a, 20, 36000, rowmodel::P1, true)),
     ]
 }
 
